@@ -11,6 +11,15 @@ class Prop(C02):
                          'end_deferral_emits_all', 'deferred_insert_reports_only_withdrawal', 'addpath_window_eq_limited',
                          'replaced_path_id_sound', 'alloc_lowest_free']
     extra_targets = ['Model/Rib.vo']
+    correspondence_name = 'Model/Rib.v step (notifications and Loc-RIB) vs rustybgp_table::Table (harness/hx-rib)'
+    trusted_base = C02.trusted_base + [
+        'consumers are functions from prefix to the last path list they looked at (full / best-only / add-path window n); the daemon\'s own consumers '
+        '(PendingTx and the export maps keyed by dest_id) belong to property C01',
+        'the order of the notifications inside the vector returned by drop*/restale*/update_nexthop_validity follows hash-map iteration and is not modelled; '
+        'theorem change_carries_current_list shows every notification of one operation for one prefix carries the same final list, so folding is order-independent',
+        'dest_ids_unique assumes the allocator\'s own debug_assert (fewer than 2^24 destinations per shard) along the history; shard index < 256 is not needed in the '
+        'model because ids are unbounded naturals there (the u32 shift of a shard index >= 256 would wrap in release builds)']
+    assumptions = ['a Source object (allocation token) always denotes the same remote address (consistent histories)']
     rule = ('histories over 3 prefixes, 3 peers (each with a restarted session), path ids 0-2, with insert/replace/remove/drop/stale mark and purge/'
             'LLGR mark and purges/NO_LLGR purge/next-hop flips/start-end deferral; non-trivial = at least one change with best_changed=false or '
             'any_changed=false was emitted; distinct = distinct sequence of (prefix, flags, path list) changes')
